@@ -148,7 +148,7 @@ def crosscheck(ctx, cfg, sched_seed=0):
             if 'factors' in x:
                 for l, (f1, f2) in enumerate(zip(x['factors'], y['factors'])):
                     for t1, t2 in zip(f1, f2):
-                        if (t1 is None) != (t2 is None) or (t1 is not None and kfacsim.relerr(t1, t2) > 1e-10):
+                        if (t1 is None) != (t2 is None) or (t1 is not None and kfacsim.relerr(t1, t2) > (3e-6 if getattr(cfg, 'fac32', False) else 1e-10)):
                             diffs.append(f'rank {r} op {i} layer {l}: saved factors differ')
         if rr.res[r]['holds'] != gres[r]['holds']:
             diffs.append(f'rank {r}: holdings differ')
